@@ -53,12 +53,31 @@ def run_case(case):
 
     def body(s):
         api = s.make_api()
+        stop = None
+        if case.get("other_connection"):
+            # another live connection of this process, to another receiver that reports the availability of ITS zones
+            # while the check is running
+            stop = s.start_decoy_connection([(rng.randrange(0, 1_200_000), f"@{z}:AVAIL=Ready") for z in ("ZONE2", "ZONE3", "ZONE4", "MAIN")])
+        if case.get("repeat"):
+            # an earlier check on the same object (same device, no fault)
+            try:
+                api.connection_check()
+            except AS.dsim.SimAbort:
+                raise
+            except BaseException as e:  # noqa
+                s.extra["first_check"] = f"{type(e).__name__}: {e}"
+            s.sleep(0.3)
+            s.dev.respond = rx.respond_fn  # same behaviour, fresh answers
+            del s.sim.events[:]
+            rx.answered[:] = []
         if f and f["kind"] == "silent_after":
             s.dev.silent_after_replies = f["k"]
         if f and f["kind"] in ("eof", "err"):
-            s.dev.fault_at(f["at_us"], f["kind"])
+            s.dev.fault_at(s.sim.now + f["at_us"], f["kind"])
         s.call(api.connection_check)
         s.sleep(3.0)
+        if stop:
+            stop()
 
     s.run(body)
     return s, rx
@@ -129,6 +148,8 @@ def run(chk: Check):
     extra = 150 if chk.tier == "quick" else 3000
     for _ in range(extra):
         c = {"zones": rng.choice(subsets), "latency_us": rng.choice(lats), "swallow_first": rng.random() < 0.4, "missing": rng.choice(["@UNDEFINED", "@RESTRICTED"]), "seed": rng.randrange(1 << 30), "switch_prob": rng.choice([0.05, 0.3, 0.6]), "jitter": rng.random() < 0.5}
+        c["repeat"] = rng.random() < 0.2            # an earlier connection_check() on the same object
+        c["other_connection"] = rng.random() < 0.2  # another live connection of the process hears AVAIL reports meanwhile
         r = rng.random()
         if r < 0.25:
             c["fault"] = {"kind": "silent_after", "k": rng.randrange(0, 8)}
